@@ -3,6 +3,7 @@ package main
 import (
 	"fmt"
 	"go/types"
+	"sort"
 	"strings"
 
 	"golang.org/x/tools/go/ssa"
@@ -197,6 +198,41 @@ func (e *Engine) callOrd(fr *Frame, name string) int {
 	return e.callCtr[k]
 }
 
+// afterHooks: ghost updates of the top-level contract for a call that just returned.
+func (fr *Frame) afterHooks(cx *callCtx, rs []Term) {
+	e := fr.eng
+	top := e.topFrame
+	if top == nil || top.con == nil || cx.spec || len(top.con.Afters) == 0 {
+		return
+	}
+	for _, ah := range top.con.Afters {
+		if !patMatches(ah.Pattern, cx.name) {
+			continue
+		}
+		env := fr.specEnvFor(cx.st)
+		tenv := top.specEnvFor(cx.st)
+		for k, v := range tenv.vars {
+			if _, ok := env.vars[k]; !ok {
+				env.vars[k] = v
+			}
+		}
+		env.con = top.con
+		env.pkg = top.con.Pkg
+		env.old = top.entry
+		for i, r := range rs {
+			env.vars[fmt.Sprintf("$r%d", i)] = binding{r, cx.sig.Results().At(i).Type()}
+		}
+		for i, a := range cx.args {
+			if i < len(cx.argTs) {
+				env.args = append(env.args, sval{t: a, typ: cx.argTs[i]})
+			}
+		}
+		v := env.evalBool(ah.Expr.Expr)
+		c := e.comp("$g$"+ah.Ghost, "Bool")
+		cx.st.heap[c] = e.vc.name("ghost", "Bool", v)
+	}
+}
+
 // checkSites: emit the site obligations of the top-level contract for this call.
 func (fr *Frame) checkSites(cx *callCtx) {
 	e := fr.eng
@@ -209,11 +245,35 @@ func (fr *Frame) checkSites(cx *callCtx) {
 			continue
 		}
 		if ss.Ordinal > 0 {
-			// count matches of the pattern per (pattern) independently of the spec
-			if e.vc.dry == 0 {
-				e.sitePat[ss]++
+			// #k: the k-th matching call of the function under contract in SOURCE order
+			if e.siteInstr == nil {
+				e.siteInstr = map[*SiteSpec]ssa.Instruction{}
 			}
-			if e.sitePat[ss] != ss.Ordinal {
+			want, ok := e.siteInstr[ss]
+			if !ok {
+				var cands []ssa.Instruction
+				for _, b := range top.fn.Blocks {
+					for _, ins := range b.Instrs {
+						if c, ok := ins.(ssa.CallInstruction); ok {
+							n := ""
+							if c.Common().IsInvoke() {
+								n = ifaceMethodName(c.Common())
+							} else if sc := c.Common().StaticCallee(); sc != nil {
+								n = canonName(sc)
+							}
+							if n != "" && patMatches(ss.Pattern, n) {
+								cands = append(cands, ins)
+							}
+						}
+					}
+				}
+				sort.Slice(cands, func(i, j int) bool { return cands[i].Pos() < cands[j].Pos() })
+				if ss.Ordinal <= len(cands) {
+					want = cands[ss.Ordinal-1]
+				}
+				e.siteInstr[ss] = want
+			}
+			if want == nil || cx.instr != want {
 				continue
 			}
 		}
@@ -309,6 +369,9 @@ func VerifyFunction(p *Program, cs *Contracts, fn *ssa.Function, con *Contract) 
 			vc.assume(fmt.Sprintf("(not (= %s nil))", fr.params[0]))
 			vc.assumes["pointer receivers are non-nil"] = true
 		}
+	}
+	for _, g := range con.Ghosts {
+		st.heap[e.comp("$g$"+g, "Bool")] = "false"
 	}
 	fr.entry = st.clone()
 	env := fr.specEnvFor(st)
